@@ -412,4 +412,64 @@ theorem tap_nil_unread (H : Bytes → Bytes) (sh : SigHashes) (ht : UInt32) (tx 
     | some inp => simp [h, h1, h2]
 
 
+/-- a caller option as the pair the Spec's `requested*` functions read -/
+def optView : TapOpt → Option Bytes × Option (UInt32 × Bytes)
+  | .annex a => (some a, none)
+  | .base p l => (none, some (p, l))
+
+/-- options in "normal form": what `mkOpts` builds from an annex and an extension -/
+def normOpts (H : Bytes → Bytes) (annex : Option Bytes) (e : TapExt) : TaprootSigHashOptions :=
+  mkOpts H annex (some (e.leafHash, e.codeSepPos))
+
+theorem applyOpt_norm (H : Bytes → Bytes) (annex : Option Bytes) (e : TapExt) (o : TapOpt) :
+    applyOpt H (normOpts H annex e) o =
+      normOpts H (match (optView o).1 with | some a => some a | none => annex)
+        (match (optView o).2 with | some (p, l) => ⟨l, 0, p⟩ | none => e) := by
+  cases o <;> cases annex <;>
+    simp [applyOpt, normOpts, mkOpts, withAnnex, withBaseTapscriptVersion, optView]
+
+theorem requestedAnnex_cons (a : Option Bytes) (v : Option Bytes × Option (UInt32 × Bytes))
+    (rest : List (Option Bytes × Option (UInt32 × Bytes))) :
+    (match requestedAnnex (v :: rest) with | some x => some x | none => a) =
+      (match requestedAnnex rest with
+        | some x => some x
+        | none => (match v.1 with | some y => some y | none => a)) := by
+  obtain ⟨v1, v2⟩ := v
+  simp only [requestedAnnex]
+  cases requestedAnnex rest <;> cases v1 <;> simp
+
+theorem applyOpts_norm (H : Bytes → Bytes) (l : List TapOpt) : ∀ (annex : Option Bytes) (e : TapExt),
+    applyOpts H l (normOpts H annex e) =
+      normOpts H (match requestedAnnex (l.map optView) with | some x => some x | none => annex)
+        (requestedExt e (l.map optView)) := by
+  induction l with
+  | nil => intro annex e; cases annex <;> simp [applyOpts, requestedAnnex, requestedExt]
+  | cons o rest ih =>
+    intro annex e
+    simp only [applyOpts, List.foldl_cons, List.map_cons]
+    have := ih (match (optView o).1 with | some a => some a | none => annex)
+      (match (optView o).2 with | some (p, l) => ⟨l, 0, p⟩ | none => e)
+    simp only [applyOpts] at this
+    rw [applyOpt_norm, this, requestedAnnex_cons]
+    cases hv : optView o with
+    | mk v1 v2 =>
+      cases v2 with
+      | none => simp [requestedExt]
+      | some b => obtain ⟨p, l⟩ := b; simp [requestedExt]
+
+
+theorem requestedExt_kv (l : List (Option Bytes × Option (UInt32 × Bytes))) :
+    ∀ d : TapExt, d.keyVersion = 0 → (requestedExt d l).keyVersion = 0 := by
+  induction l with
+  | nil => intro d h; simpa [requestedExt] using h
+  | cons v rest ih =>
+    intro d h
+    obtain ⟨a, b⟩ := v
+    cases b with
+    | none => simpa [requestedExt] using ih d h
+    | some pl => obtain ⟨p, l⟩ := pl; simpa [requestedExt] using ih ⟨l, 0, p⟩ rfl
+
+theorem tapHash_eq (H : Bytes → Bytes) (v : UInt8) (s : Bytes) :
+    Model.tapHash H v s = Spec.tapLeafHash H v s := rfl
+
 end BV.C07.Lemmas
